@@ -395,7 +395,19 @@ def run_failpoints(case, rng, counters, cov, judge):
         # observers positioned after the failing processor cannot be identified for a failpoint: artifacts of ALL
         # observers whose stream had not ended are checked via "descriptor implies run completed" => none may exist
         # unless the fault fired after that observer had finished; conservative: only the LAST observer is judged
-        after = [(k, loc) for (p, k, loc) in obs[-1:]]
+        # the failing STEP is identified by the source file of the failpoint site: the last observer is judged only
+        # if every step implemented in that file sits before it (a step downstream of an observer, e.g. a finalizer
+        # after a dump, legitimately fails after that observer has committed)
+        import inspect
+        site_file = os.path.join(boot.REPO, site[0])
+
+        def step_file(x):
+            try:
+                return inspect.getsourcefile(x if inspect.isfunction(x) else type(x))
+            except Exception:
+                return None
+        positions = [i for i, x in enumerate(st) if step_file(x) == site_file]
+        after = [(k, loc) for (p, k, loc) in obs[-1:] if positions and max(positions) < p]
         committed = [(k, loc) for k, loc in after if artifact_committed(k, loc)]
         if err is None:
             logged = [m for lvl, m in cap.records if lvl == 'ERROR']
